@@ -164,17 +164,18 @@ theorem catalog_scan_bounded (sd : Disk.Side) : (Disk.slots sd).length = 112 := 
 /-! ### confinement -/
 
 /-- **C18 (tape confinement)**: whatever the archive bytes, every path written by tape extract is
-    the destination directory joined with one component free of '/' — never a path elsewhere. -/
+    the destination directory joined with one component free of '/' that names an entry *inside* it — not empty, not `.`, not
+    `..`, no NUL (`Tape.openable`) — never a path elsewhere. -/
 theorem tape_confined (verbose : Bool) (archive : Str) (into : Option Str) (tape : Bytes) :
     ∀ w ∈ (Tape.extract verbose archive into tape).writes,
-      ∃ f, w.1 = pathJoin (Tape.targetDirOf archive into) f ∧ f.contains 47 = false :=
+      ∃ f, w.1 = pathJoin (Tape.targetDirOf archive into) f ∧ f.contains 47 = false ∧ Tape.openable f = true :=
   C19.tape_extract_placement verbose archive into tape
 
 /-- one side: every file written is `sidePath/NAME.EXT` with no '/' and no NUL in the name, and is
     not the path the extractor was told to keep (the archive) -/
 theorem readEntries_writes (sd : Disk.Side) (bat : List Nat) (dir : Str) (entries : List Disk.Entry) : ∀ (st : Disk.RdState),
     ∀ w ∈ (Disk.readEntries sd bat (some dir) entries st).1.writes,
-      w ∈ st.writes ∨ ∃ f, w.1 = pathJoin dir f ∧ f.contains 47 = false ∧ f.contains 0 = false ∧ Tape.collides st.keep w.1 = false := by
+      w ∈ st.writes ∨ ∃ f, w.1 = pathJoin dir f ∧ f.contains 47 = false ∧ f.contains 0 = false ∧ f ≠ [46] ∧ f ≠ [46, 46] ∧ Tape.collides st.keep w.1 = false := by
   induction entries with
   | nil => intro st w hw; simp [Disk.readEntries] at hw; exact Or.inl hw
   | cons e rest ih =>
@@ -188,14 +189,16 @@ theorem readEntries_writes (sd : Disk.Side) (bat : List Nat) (dir : Str) (entrie
         · exact Or.inl hw
         · split at hw
           · exact Or.inl hw
-          · rename_i h47 hcol _
+          · rename_i h47 hcol hdot
             rcases ih _ w hw with h | h
             · simp only [List.mem_append, List.mem_singleton] at h
               rcases h with h | h
               · exact Or.inl h
-              · refine Or.inr ⟨Disk.fileNameOf e, by rw [h], ?_, ?_, ?_⟩
+              · refine Or.inr ⟨Disk.fileNameOf e, by rw [h], ?_, ?_, ?_, ?_, ?_⟩
                 · simp only [Bool.or_eq_true, not_or] at h47; simpa using h47.1
                 · simp only [Bool.or_eq_true, not_or] at h47; simpa using h47.2
+                · intro e1; apply hdot; simp [e1]
+                · intro e1; apply hdot; simp [e1]
                 · rw [h]; simpa using hcol
             · exact Or.inr h
 
@@ -221,9 +224,10 @@ theorem readEntries_keep (sd : Disk.Side) (bat : List Nat) (sp : Option Str) (en
             · exact ih _
 
 /-- a path the disk extractor may write: the destination, a `sideN` directory, one component
-    without '/' and without NUL -/
+    without '/' and without NUL that is neither `.` nor `..` — an entry inside `sideN` -/
 def DiskWritable (target : Str) (path : Str) : Prop :=
   ∃ k f, path = pathJoin (pathJoin target (Tape.str "side" ++ digits k)) f ∧ f.contains 47 = false ∧ f.contains 0 = false
+    ∧ f ≠ [46] ∧ f ≠ [46, 46]
 
 theorem readSides_writes (target : Str) : ∀ (sides : List Disk.Side) (i : Nat) (st : Disk.RdState),
     (∀ w ∈ st.writes, DiskWritable target w.1 ∧ Tape.collides st.keep w.1 = false) →
@@ -248,9 +252,9 @@ theorem readSides_writes (target : Str) : ∀ (sides : List Disk.Side) (i : Nat)
             { l := Disk.onBeginOfSide st.l i, mkdirs := st.mkdirs ++ [pathJoin target (Tape.str "side" ++ digits i)], writes := st.writes, keep := st.keep }).1.writes,
             DiskWritable target w'.1 ∧ Tape.collides st.keep w'.1 = false := by
           intro w' hw'
-          rcases readEntries_writes sd bat _ entries _ w' hw' with h1 | ⟨f, hf, h47, h0, hc⟩
+          rcases readEntries_writes sd bat _ entries _ w' hw' with h1 | ⟨f, hf, h47, h0, hd1, hd2, hc⟩
           · exact h w' h1
-          · exact ⟨⟨i, f, hf, h47, h0⟩, hc⟩
+          · exact ⟨⟨i, f, hf, h47, h0, hd1, hd2⟩, hc⟩
         have hkeep := readEntries_keep sd bat (some (pathJoin target (Tape.str "side" ++ digits i))) entries
             { l := Disk.onBeginOfSide st.l i, mkdirs := st.mkdirs ++ [pathJoin target (Tape.str "side" ++ digits i)], writes := st.writes, keep := st.keep }
         generalize hr : Disk.readEntries sd bat (some (pathJoin target (Tape.str "side" ++ digits i))) entries
@@ -266,7 +270,7 @@ theorem readSides_writes (target : Str) : ∀ (sides : List Disk.Side) (i : Nat)
           exact this
 
 /-- **C18 (disk confinement)**: whatever the bytes of the image — any table, any catalog, any names —
-    every path `--extract` writes is `destination/sideN/<one component without '/' and NUL>` -/
+    every path `--extract` writes is `destination/sideN/<one component without '/' and NUL, neither `.` nor `..`>` -/
 theorem disk_confined (fl : Disk.Flavour) (verbose : Bool) (archive : Str) (into : Option Str) (raw : Bytes) :
     ∀ w ∈ (Disk.extract fl verbose archive into raw).writes, DiskWritable (Tape.targetDirOf archive into) w.1 := by
   intro w hw
